@@ -93,6 +93,26 @@ def rule_a(ctx: Ctx) -> None:
         defs = rd[n].get(var, set())
         ok2 = bool(defs) and all(d.ast is not None and 'get_value(' in text(d.ast) and 'for s in selectors' in text(d.ast) for d in defs)
         ctx.ob(rule, 'the tuple holds one value per field selector', f.loc(c), ok2, '', key=f'{ELEM}.collect_key_fields|tuple')
+    # scope clause: only nodes selected by the constraint's selector within the scope element are counted
+    loops = [x for x in g.nodes if x.kind == 'for' and text(x.ast.iter) == 'self.selected_by']
+    tests = [x for x in g.nodes if x.kind == 'if' and text(x.ast.test).replace(' ', '') in ('objnotincounter.elements', 'not(objincounter.elements)')]
+    for n, c in incs:
+        ok = bool(loops) and bool(tests)
+        if ok:
+            body = [m for m, lab in g.succ[loops[0]] if lab == 'T']
+            for b in body:
+                ok = ok and g.must_pass(b, [n], tests, kinds='nTFi') is None
+            ok = ok and any((text(t.ast.test), 'F') in guards(ctx, f, n) for t in tests)
+            cont = [s_ for t in tests for s_ in t.ast.body]
+            ok = ok and all(isinstance(s_, ast.Continue) for s_ in cont)
+        ctx.ob(rule, 'only elements selected by the identity selector within the scope element take part: every path of an iteration '
+                     'to counter.increase passes the membership test `obj not in counter.elements`', f.loc(c), ok,
+               '' if ok else 'a path reaches counter.increase without the selector membership test: elements that share the declaration '
+               'but are not selected (e.g. nested deeper) enter the key table', key=f'{ELEM}.collect_key_fields|selector-membership')
+    sel = [x for x in g.nodes if x.kind == 'stmt' and isinstance(x.ast, ast.Assign) and text(x.ast.targets[0]) == 'counter.elements']
+    ok = bool(sel) and all('identity.selector.token.select_results(xpath_context)' in text(x.ast.value) for x in sel) and \
+        any('context.source.get_xpath_node(counter.elem)' in text(s_) for s_ in walk_no_nested(f.node) if isinstance(s_, ast.Assign))
+    ctx.ob(rule, 'the selected set is computed by the selector from the scope element (counter.elem)', f.loc(), ok, '', key=f'{ELEM}.collect_key_fields|selector-root')
     ctx.explain('C08.a: the path condition (transitive control dependence) of counter.increase(fields) must contain a '
                 'None-exclusion test on the whole tuple, at least for key references.')
 
